@@ -184,6 +184,18 @@ func genCase(r *gen.Rand, i int) caseSpec {
 			}
 		}
 	}
+	// the order of the inputs on the call: merge must not depend on it (beyond ties in priority)
+	nIn := n
+	if len(cs.Compound) > 0 {
+		nIn = n - 2
+	}
+	if r.Bool() {
+		cs.Order = make([]int, nIn)
+		for k := range cs.Order {
+			cs.Order[k] = k
+		}
+		gen.Shuffle(r, cs.Order)
+	}
 	// (index.SetTombstone is only meaningful for compound shards: on a v16 shard it writes a JSON array that the
 	// v16 reader cannot parse, so simple inputs are never tombstoned here)
 	return cs
